@@ -16,7 +16,9 @@ CONSTANTS Holders, MaxLen, Emit
 \* the file the holders share
 rcid(n) == <<114, 48 + n>>
 RcSeg == << Doc(rcid(0), << IdF(rcid(0)), Txt(fA, TRUE, TRUE, 116, <<1, 2, 3>>, <<>>, 1, <<Tk(bA, 1, <<>>)>>) >>, <<>>),
-           Doc(rcid(1), << IdF(rcid(1)), Txt(fB, TRUE, FALSE, 110, <<7>>, <<4>>, 2, <<Tk(bB, 1, <<>>), Tk(bX, 1, <<>>)>>) >>, <<>>) >>
+           Doc(rcid(1), << IdF(rcid(1)), Txt(fB, TRUE, FALSE, 110, <<7>>, <<4>>, 2, <<Tk(bB, 1, <<>>), Tk(bX, 1, <<>>)>>) >>, <<>>),
+           \* a synonym document: the thesaurus goes through the segment's lazily filled synonym cache
+           Doc(rcid(2), << IdF(rcid(2)), Syn(fSyn, << Def(bA, <<bB, bX>>), Def(bB, <<bA>>) >>) >>, <<>>) >>
 RcC == ContentOfBatch(RcSeg, 1026)
 
 VARIABLES refs, mapped, fdOpen, unmaps, held, hist, lastErr
